@@ -52,6 +52,17 @@ def strategy(tier):
                 m["events"] = m["events"] + [{"rate": ir.C(draw(S.fl(0.3, 2.0, 2))), "rate_kind": "const",
                                               "trans": [{"kind": "D", "o": last["name"], "d": None,
                                                          "mag": {"int": draw(st.integers(1, 2))}}]}]
+        if decl == "limits" and draw(st.integers(0, 4)) == 0:
+            # the same limits far from zero (a ward that holds 100 000 - 100 030 doses, a population capped at 300 000):
+            # a bound must be exactly as sharp there as next to zero
+            base = draw(st.sampled_from([100000, 300000]))
+            shifted = False
+            for d in m["state_decl"]:
+                if d.get("lims") and (d["lims"][0] is not None or d["lims"][1] is not None):
+                    d["lims"] = [None if v is None else v + base for v in d["lims"]]
+                    shifted = True
+            if shifted:
+                m["large_limits"] = base
         su = draw(S.stochastic_setup(m, x_hi=draw(st.sampled_from([3, 8, 40]))))
         algo = draw(st.sampled_from(["exact", "tau", "pre_tau", "pre_tau"]))
         drift = None
@@ -102,6 +113,8 @@ def _probe_state(lims, offs):
 def oracle(case, rec):
     from pygom.model.stochastic_simulation import firstReaction, tauLeap
     m, su, algo = case["model"], case["setup"], case["algo"]
+    if m.get("large_limits"):
+        rec.label("limits:shifted-by-%d" % m["large_limits"])
     lims = ir.state_limits(m)
     n_e = len(m["events"])
     drift = case.get("drift")
